@@ -23,6 +23,20 @@ type ValCase struct {
 }
 
 func (vc *ValCase) value(c *Cfg) any {
+	if vc.Family == "large-slice" {
+		if strings.Contains(vc.Type, "int32") {
+			a := make([]int32, vc.Gen)
+			for i := range a {
+				a[i] = int32(i + 1)
+			}
+			return a
+		}
+		b := make([]zoo.T, vc.Gen)
+		for i := range b {
+			b[i] = zoo.T{A: i + 1, B: "x"}
+		}
+		return b
+	}
 	if vc.Zoo != "" {
 		for _, z := range zoo.Fixed() {
 			if z.Name == vc.Zoo {
@@ -523,6 +537,31 @@ func runC15(c *Cfg) {
 	}
 	for k := range kindsSeen {
 		r.Count("zoo.kind."+k, 1)
+	}
+	// large slices of types without a fast path in ToSlice (size thresholds, chunking)
+	for _, n := range []int{8193, 20003, 65537} {
+		a := make([]int32, n)
+		for i := range a {
+			a[i] = int32(i + 1)
+		}
+		b := make([]zoo.T, n)
+		for i := range b {
+			b[i] = zoo.T{A: i + 1, B: "x"}
+		}
+		for _, v := range []any{a, b} {
+			fs, _ := checkAccessors(v)
+			r.Eval()
+			vc := ValCase{Family: "large-slice", Gen: n, Type: fmt.Sprintf("%T", v)}
+			for _, f := range fs {
+				d := f.detail
+				if len(d) > 300 {
+					d = d[:300] + "…"
+				}
+				r.Violate("C15", "C15:"+f.key, fmt.Sprintf("(slice of %d elements) %s", n, d), vc)
+			}
+			r.Count("large_slices.values", 1)
+			r.Nontrivial(fmt.Sprintf("large:%T:%d", v, n))
+		}
 	}
 	r.Sample("zoo", map[string]any{"names": zooNames(fixed)})
 	n := c.Pick(100000, 1500000)
